@@ -214,7 +214,7 @@ NODICT_KINDS = ['bytes', 'badbytes', 'bytearray', 'slots', 'lock', 'deque', 'dat
                 'stringio', 'ordereddict', 'defaultdict', 'namedtuple', 'counter', 'strsub', 'intsub', 'listsub',
                 'dictsub', 'dataclass', 'func', 'lambda', 'cls', 'module', 'list_iter', 'list_reviter',
                 'frame', 'traceback_obj', 'code', 'weakref', 'date', 'timedelta', 'slice', 'mappingproxy', 'mailbox',
-                'oneshot', 'mailbox']
+                'oneshot', 'mailbox', 'builtin_named', 'builtin_named']
 SCALAR_KINDS = ['none', 'bool', 'int', 'bigint', 'float', 'nan', 'inf', 'str', 'longstr', 'surrogate', 'nulstr',
                 'astral', 'emptystr']
 CONTAINER_KINDS = ['list', 'tuple', 'set', 'frozenset', 'dict', 'obj', 'exc']
@@ -369,6 +369,11 @@ def _build_leaf(node):
         return slice(1, 2)
     if k == 'mappingproxy':
         return types.MappingProxyType({'mp': 1})
+    if k == 'builtin_named':
+        # a user class that merely has the *name* of a builtin container
+        nm = ['list', 'set', 'tuple', 'frozenset', 'dict', 'str', 'int'][int(v or 0) % 7]
+        T = type(nm, (), {'__init__': lambda self: setattr(self, 'payload', 7)})
+        return T()
     if k == 'mailbox':
         return Mailbox([1, 2, 3])
     if k == 'oneshot':
